@@ -91,6 +91,20 @@ def call_graph(repo: Repo, fns: Dict[Tuple[str, str], Fn]) -> Dict[Tuple[str, st
                 out.update(by_name.get(last, []))
         # a class used as runner_class / tree_class attribute: CompiledRunner etc. are constructed via variables
         g[key] = out
+    # lark's visitor dispatch: visit()/visit_children()/visit_topdown()/transform() call the methods named after the
+    # grammar rules of every visitor class of the repository (the dispatch itself lives in lark)
+    visitor_methods: List[Tuple[str, str]] = []
+    for m in MODS:
+        for node in repo.mod(m).tree.body:
+            if isinstance(node, ast.ClassDef) and any(any(w in (dotted(b) or ast.unparse(b)) for w in ("Visitor", "Interpreter", "Transformer")) for b in node.bases):
+                for st in node.body:
+                    if isinstance(st, ast.FunctionDef) and not st.name.startswith("__") and (m, f"{node.name}.{st.name}") in fns:
+                        visitor_methods.append((m, f"{node.name}.{st.name}"))
+    for key, f in fns.items():
+        for n in ast.walk(f.node):
+            if isinstance(n, ast.Call) and isinstance(n.func, ast.Attribute) and n.func.attr in ("visit", "visit_children", "visit_topdown", "transform"):
+                g[key] |= set(visitor_methods)
+                break
     return g
 
 
